@@ -44,6 +44,7 @@ def run(ck):
     ck.rule("C07.R4", "filter ids are distinct single bits assigned in on_subscribe", floor=4)
     ck.rule("C07.R5", "bitmap typestate: every protocol run ends all-clear and delivers iff accepted", floor=100)
     ck.rule("C07.R5s", "effect summaries extracted from MIR match a recognised shape", floor=9)
+    ck.rule("C07.R9", "a stateful per-layer filter's verdict does not depend on spans already exited: EnvFilter's per-thread scope stack is pushed and popped under one predicate (as C11.R5)", floor=3)
     ck.rule("C07.R8", "a filter below a layer that answers `sometimes` is still told about every callsite (pick_interest asks the inner value; as C09.R5)", floor=1)
     ck.rule("C07.R7", "Vec<S> / a Layered tree claim to be per-layer-filtered only if every part is", floor=2)
     ck.rule("C07.R6", "per-layer filter combinators (And/Or/Not/Option) publish sound interests and level hints (as C08.R1/R2)", floor=10)
@@ -63,6 +64,8 @@ def run(ck):
     r7(ck, F)
     from rules import C09
     C09.check_pick_interest(ck, F, rid="C07.R8")
+    from rules import C11
+    C11.r5(ck, F, rid="C07.R9")
 
 
 # ------------------------------------------------------------------ R1
@@ -452,16 +455,16 @@ def r4(ck, F):
 
 
 # ------------------------------------------------------------------ R5
-def summaries(ck, R):
+def summaries(ck, R, rid="C07.R5"):
     """Extract the effect summary (flags) of each method from MIR. Unrecognised shape => fail closed."""
     S = {}
 
     def shape(name, ok, detail, body=None):
         key = "summary:" + name
         if ok:
-            ck.ok("C07.R5s", key, detail=detail, fn=body.path if body else None)
+            ck.ok(rid + "s", key, detail=detail, fn=body.path if body else None)
         else:
-            ck.bad("C07.R5s", key, where(body.raw["sp"]) if body else name, "effect summary not recognised: %s" % detail, fn=body.path if body else None)
+            ck.bad(rid + "s", key, where(body.raw["sp"]) if body else name, "effect summary not recognised: %s" % detail, fn=body.path if body else None)
         return ok
 
     def calls_of(b):
@@ -469,7 +472,7 @@ def summaries(ck, R):
 
     # FilterState::set: enabled := enabled.get().set(filter, v)
     b = R.body(SF + "FilterState::set")
-    if ck.anchor("C07.R5s", "FilterState::set", b):
+    if ck.anchor(rid + "s", "FilterState::set", b):
         ps = [p for p in PathEval(b).run() if p.end == "return"]
         ok = len(ps) == 1
         if ok:
@@ -478,7 +481,7 @@ def summaries(ck, R):
         S["set_writes"] = shape("FilterState::set writes map.set(filter, verdict)", ok, "", b)
     # FilterState::and
     b = R.body(SF + "FilterState::and")
-    if ck.anchor("C07.R5s", "FilterState::and", b):
+    if ck.anchor(rid + "s", "FilterState::and", b):
         rows = {}
         for p in PathEval(b).run():
             if p.end != "return":
@@ -500,7 +503,7 @@ def summaries(ck, R):
         shape("FilterState::and", ok and S["and_clear_writes_result"], str(rows), b)
     # FilterState::did_enable
     b = R.body(SF + "FilterState::did_enable")
-    if ck.anchor("C07.R5s", "FilterState::did_enable", b):
+    if ck.anchor(rid + "s", "FilterState::did_enable", b):
         rows = {}
         for p in PathEval(b).run():
             if p.end != "return":
@@ -518,7 +521,7 @@ def summaries(ck, R):
         shape("FilterState::did_enable", ok and S["did_enable_runs_on_clear"] and S["did_enable_skips_on_dirty"], str(rows), b)
     # clear_enabled
     b = R.body(SF + "FilterState::clear_enabled::{closure#0}")
-    if ck.anchor("C07.R5s", "FilterState::clear_enabled", b):
+    if ck.anchor(rid + "s", "FilterState::clear_enabled", b):
         w = [t for bb, t in b.calls() if t["callee"].get("method") == "set" and "Cell" in t["callee"].get("path", "")]
         ok = len(w) == 1 and b.origin(w[0]["argv"][1])[0] == "call" and b.origin(w[0]["argv"][1])[2]["callee"].get("path") == SF + "FilterMap::new"
         S["clear_all"] = shape("FilterState::clear_enabled stores FilterMap::new()", ok, "", b)
@@ -528,7 +531,7 @@ def summaries(ck, R):
         S["new_is_clear"] = shape("FilterMap::new() has no bit set", len(r) == 1 and r[0][0] == "agg" and r[0][3][0][0] == "const" and r[0][3][0][2] == 0, show(r[0]) if r else "", nm)
     # Filtered::enabled: set(id, verdict of own filter), on every path
     b = R.body(FILTERED + "enabled")
-    if ck.anchor("C07.R5s", "Filtered::enabled", b):
+    if ck.anchor(rid + "s", "Filtered::enabled", b):
         cl = [c for c in R.closures_of(b)]
         setc = [(c, t) for c in cl for bb, t in c.calls() if t["callee"].get("path") == SF + "FilterState::set"]
         ok = len(setc) == 1
@@ -543,7 +546,7 @@ def summaries(ck, R):
             ok = ok and len(fe) == 1 and b.dominates(fe[0], withc[0])
         S["filtered_enabled_writes_verdict"] = shape("Filtered::enabled records its filter's verdict with FilterState::set on every path", ok, "", b)
     b = R.body(FILTERED + "event_enabled")
-    if ck.anchor("C07.R5s", "Filtered::event_enabled", b):
+    if ck.anchor(rid + "s", "Filtered::event_enabled", b):
         cl = R.closures_of(b)
         andc = [(c, t) for c in cl for bb, t in c.calls() if t["callee"].get("path") == SF + "FilterState::and"]
         fe = [(c, t) for c in cl for bb, t in c.calls() if t["callee"].get("trait") == FILTER and t["callee"].get("method") == "event_enabled"]
@@ -551,7 +554,7 @@ def summaries(ck, R):
         S["filtered_event_enabled_ands"] = shape("Filtered::event_enabled folds its filter's event verdict in with FilterState::and", ok, "", b)
     for m in ("on_event", "on_new_span"):
         b = R.body(FILTERED + m)
-        if ck.anchor("C07.R5s", "Filtered::" + m, b):
+        if ck.anchor(rid + "s", "Filtered::" + m, b):
             de = [bb for bb, t in b.calls() if t["callee"].get("path") == SF + "Filtered::<S, F, C>::did_enable"]
             ok = len(de) == 1 and b.postdominates(de[0], 0)
             if not de:
@@ -567,7 +570,7 @@ def summaries(ck, R):
     # Layered vetoes
     for m, flag in (("enabled", "layered_enabled_veto_clears"), ("event_enabled", "layered_event_enabled_veto_clears")):
         b = R.body(LAYERED_C + m)
-        if ck.anchor("C07.R5s", "Layered::" + m, b):
+        if ck.anchor(rid + "s", "Layered::" + m, b):
             rows = {}
             for p in PathEval(b).run():
                 if p.end != "return" or not p.conds:
@@ -588,14 +591,14 @@ def summaries(ck, R):
             shape("Layered::%s asks the outer layer first; veto returns false (clears bitmap: %s)" % (m, S[flag]), ok, str(rows), b)
     # Registry::new_span only reads the bitmap
     b = R.body(REG_C + "new_span")
-    if ck.anchor("C07.R5s", "Registry::new_span", b):
+    if ck.anchor(rid + "s", "Registry::new_span", b):
         cl = R.closures_of(b)
         fm = [1 for c in cl for bb, t in c.calls() if t["callee"].get("path") == SF + "FilterState::filter_map"]
         wr = [1 for c in [b] + cl for bb, t in c.calls() if t["callee"].get("path") in (SF + "FilterState::clear_enabled", SF + "FilterState::set")]
         S["new_span_reads_only"] = shape("Registry::new_span snapshots the bitmap into the span without resetting it", bool(fm) and not wr, "", b)
     # Dispatch::event: event iff event_enabled
     d = R.body("tracing_core::dispatch::Dispatch::event")
-    if ck.anchor("C07.R5s", "Dispatch::event", d):
+    if ck.anchor(rid + "s", "Dispatch::event", d):
         rows = {}
         for p in PathEval(d).run():
             if p.end != "return" or not p.conds:
@@ -701,8 +704,8 @@ class Sim:
             self.notify("filtered_on_new_span_consumes")
 
 
-def r5(ck, R):
-    S = summaries(ck, R)
+def r5(ck, R, rid="C07.R5"):
+    S = summaries(ck, R, rid)
     shapes = {
         "filtered": [("F", 0)],
         "filtered-over-global": [("F", 0), ("G",)],
@@ -727,7 +730,7 @@ def r5(ck, R):
                     if dirty:
                         writer = sim.last_writer.get(dirty[0], "?")
                         run_name = {"probe": "probe"}.get(kind, "event_enabled-veto" if writer == "Layered::event_enabled" else kind)
-                        ck.bad("C07.R5", "%s:%s" % (run_name, writer), "FILTERING.enabled",
+                        ck.bad(rid, "%s:%s" % (run_name, writer), "FILTERING.enabled",
                                "run [%s] leaves filter bit(s) %s dirty (last writer %s): the next emission from a callsite cached `always` skips "
                                "`enabled`, reads the stale bit and the layer misses an event its filter accepts" % (inst, dirty, writer))
                         # key collapses all runs with the same (run, writer); count instance separately
@@ -741,10 +744,10 @@ def r5(ck, R):
                             if k[0] == "F" and globals_ok and v[0] and (v[1] if kind == "event" else True):
                                 want.add(k[1])
                         if sim.delivered != want:
-                            ck.bad("C07.R5", "delivery:%s:%s" % (sname, kind), "Filtered",
+                            ck.bad(rid, "delivery:%s:%s" % (sname, kind), "Filtered",
                                    "run [%s] from a clean bitmap delivers to layers %s, expected %s" % (inst, sorted(sim.delivered), sorted(want)))
                             continue
-                    ck.ok("C07.R5", inst, detail=dict(final=sim.bits, delivered=sorted(sim.delivered)))
+                    ck.ok(rid, inst, detail=dict(final=sim.bits, delivered=sorted(sim.delivered)))
 
 
 def r7(ck, F, rid="C07.R7"):
